@@ -157,3 +157,42 @@ def bounded(params):
     return {"evaluations": evals, "distinct_nontrivial": nontriv, "failures": failures,
             "rule": "seeded 1-D label-map pairs (length 5, <=2 labels, canonical) x input type x matcher x decision metric/threshold through the real evaluator; non-trivial = tp > 0",
             "bound": "length 5, 2 labels; quick 60 pairs, thorough 500"}
+
+
+def frame(params):
+    """evaluate_matched_instance / the evaluator must not change the metric list they are configured with (nor the shared default)"""
+    serial_pools()
+    import inspect
+    from panoptica import Panoptica_Evaluator, InputType
+    from panoptica.instance_evaluator import evaluate_matched_instance
+    from panoptica.utils.processing_pair import MatchedInstancePair
+    from panoptica.metrics import Metric
+    import panoptica.panoptica_evaluator as PE
+    bad = []
+    a = np.array([0, 1, 1, 2, 2, 0], np.uint8)
+    for dec, names in (("ASSD", ["DSC", "IOU"]), ("IOU", ["DSC", "IOU"]), ("clDSC", ["DSC"]), (None, ["DSC"])):
+        mets = [Metric[m] for m in names]
+        before = list(mets)
+        try:
+            evaluate_matched_instance(MatchedInstancePair(a.copy(), a.copy()), eval_metrics=mets, decision_metric=None if dec is None else Metric[dec],
+                                      decision_threshold=None if dec is None else 0.5)
+            if dec is not None and dec not in names:
+                bad.append(f"decision metric {dec} outside the evaluated metrics {names} was accepted")
+        except AssertionError:
+            pass
+        except Exception as e:
+            bad.append(f"raised {type(e).__name__}: {e}"[:160])
+        if mets != before:
+            bad.append(f"eval_metrics changed from {[m.name for m in before]} to {[m.name for m in mets]} (decision metric {dec})")
+    d0 = [list(p.default) for p in inspect.signature(Panoptica_Evaluator.__init__).parameters.values() if isinstance(p.default, list)]
+    d1 = [list(p.default) for p in inspect.signature(PE.panoptic_evaluate).parameters.values() if isinstance(p.default, list)]
+    for dec in ("clDSC", "RVD"):
+        try:
+            ev = Panoptica_Evaluator(expected_input=InputType.MATCHED_INSTANCE, decision_metric=Metric[dec], decision_threshold=0.5)
+            ev.evaluate(a.copy(), a.copy(), verbose=False)
+        except Exception:
+            pass
+    if d0 != [list(p.default) for p in inspect.signature(Panoptica_Evaluator.__init__).parameters.values() if isinstance(p.default, list)] or \
+            d1 != [list(p.default) for p in inspect.signature(PE.panoptic_evaluate).parameters.values() if isinstance(p.default, list)]:
+        bad.append("a shared mutable default argument (metric list) was modified by use")
+    return {"violated": bool(bad), "problems": bad[:4]}
